@@ -206,12 +206,65 @@ def _strip_optional(tp: Any) -> Tuple[Any, bool]:
     return tp, False
 
 
+def look_alikes(values: List[str]) -> List[str]:
+    """Strings that resemble documented values without being them: snake_case, kebab-case, upper-case, lower-case and
+    blank-padded variants."""
+    import re
+
+    out: List[str] = []
+    for v in values:
+        words = re.sub(r"([a-z0-9])([A-Z])", r"\1 \2", v).replace("_", " ").replace("-", " ").replace("/", " / ").split()
+        low = [w.lower() for w in words]
+        cands = ["_".join(low), "-".join(low), "_".join(low).upper(), v.upper(), v.lower(), v.capitalize(), " " + v, v + " ",
+                 " " + v + " ", v + "\n"]
+        for c in cands:
+            if c != v and c not in values and c not in out:
+                out.append(c)
+    return out
+
+
+_LITERALS: List[str] = []
+
+
+def package_literals() -> List[str]:
+    """Every string that some Literal annotation of a discovered class documents."""
+    if not _LITERALS:
+        seen: List[str] = []
+
+        def walk(tp):
+            if typing.get_origin(tp) is typing.Literal:
+                for a in typing.get_args(tp):
+                    if isinstance(a, str) and a not in seen:
+                        seen.append(a)
+            for a in typing.get_args(tp) or ():
+                if a is not tp and not isinstance(a, (str, int, bool, type(None))):
+                    walk(a)
+
+        for c in discover()[0]:
+            for f in fields(c):
+                walk(f.annotation)
+        _LITERALS.extend(seen)
+    return _LITERALS
+
+
+def global_look_alikes() -> List[str]:
+    """A compact set for plain string members: the variants of the multi-word documented values of the whole package."""
+    multi = [v for v in package_literals() if any(ch.isupper() for ch in v[1:]) or "_" in v or "-" in v]
+    out = []
+    for x in look_alikes(multi):
+        if ("_" in x or "-" in x) and x == x.lower() and not x.startswith(" ") and not x.endswith((" ", "\n")):
+            out.append(x)
+    return out[:10]
+
+
 def samples(tp: Any, depth: int, where: str, wire_name: Optional[str] = None) -> List[Any]:
     tp, _ = _strip_optional(tp)
     if tp is Any or tp is object:
         return list(ANY_SAMPLES) + [alias_named_keys(), BIG_INTS[0]]
     if tp is str:
-        return list(STR_BY_WIRE_NAME.get(wire_name or "", STR_SAMPLES))
+        if wire_name in STR_BY_WIRE_NAME:
+            return list(STR_BY_WIRE_NAME[wire_name])
+        return list(STR_SAMPLES) + global_look_alikes()
     if tp is bool:
         return list(BOOL_SAMPLES)
     if tp is int:
@@ -235,6 +288,10 @@ def samples(tp: Any, depth: int, where: str, wire_name: Optional[str] = None) ->
             for a in per_arm:
                 if i < len(a):
                     out.append(a[i])
+        # an open string member with documented values: strings that look like those values but are not them
+        lits = [v for arm in args if typing.get_origin(arm) is typing.Literal for v in typing.get_args(arm) if isinstance(v, str)]
+        if lits and str in args:
+            out.extend(look_alikes(lits))
         return _dedupe(out)
     if origin in (list, List):
         elems = samples(args[0] if args else Any, depth, where, wire_name)
